@@ -2,6 +2,7 @@ SPECIFICATION TraceSpec
 CONSTANTS
   MaxOrder = 5
   MaxDim = 4
+  WithEmpty = TRUE
   HighOrders = {9, 10, 11}
   MaxSize = 128
 POSTCONDITION TraceAccepted
